@@ -150,7 +150,7 @@ func runDeclLists(c *core.Check) {
 
 // ---------- selectors ----------
 
-var compounds = []string{"a", "A", "DIV", "*", ".c", ".C", "#i", "#I", "[x]", "[x=y]", "[x=\"y\"]", "[x='y z']", "[x=\"y\" i]", "[x=y I]", "[X|=\"a-b\"]", "[ x ~= 'Y' ]", "[x=\"1a\"]", "[x=\"\"]",
+var compounds = []string{"a", "A", "DIV", "*", ".c", ".C", "#i", "#I", "[x]", "[x=y]", "[x=\"y\"]", "[x='y z']", "[x=\"y\" i]", "[x=y I]", "[x=\"y\" s]", "[x='y' S]", "[x=y s]", "[X|=\"a-b\"]", "[ x ~= 'Y' ]", "[x=\"1a\"]", "[x=\"\"]",
 	":hover", ":HOVER", "::before", ":not(.C)", ":Not( A , .b )", ":nth-child(2n + 1)", ":nth-child( odd )", ":nth-child(-n+3)", ":nth-of-type( 2N - 1 )", ":lang(EN)", "::part(Foo)", ":is(a > B)", "svg|A", "SVG|a", "*|A", "[x=\"a\\\"b\"]", "[x=\"-\"]", "[x=\"--a\"]", "[data-X=\"Y\"]"}
 
 var compoundsSmall = []string{"a", "A", ".C", "#I", "[x=\"y\"]", "[x=y I]", ":HOVER", ":not(.C)", ":nth-child(2n + 1)", "*"}
